@@ -315,7 +315,9 @@ def std_strategy(S, payload=None, hashable=None):
                              [['Perm', n] for n in range(8)] + [['IPerm', n] for n in (0, 2, 6, 8, 14)]).map(
         lambda p: ['std', 'enum', p[0], p[1]])
     ident = st.sampled_from(['a', 'b', 'zz', '_x', 'é', 'name', 'value', 'ctx', 'fn', 'self'])
-    r_ns = st.lists(st.tuples(ident, payload).map(list), max_size=4, unique_by=lambda p: p[0]).map(lambda kv: ['std', 'ns', kv])
+    from . import gens as _gens
+    _idents = ['a', 'b', 'zz', '_x', 'é', 'name', 'value', 'ctx', 'fn', 'self']
+    r_ns = _gens.named_values(st, _idents, payload, 4).map(lambda kv: ['std', 'ns', kv])
     r_nt = st.one_of(
         st.tuples(payload, payload).map(lambda p: ['std', 'ntuple', 'Point', list(p)]),
         st.just(['std', 'ntuple', 'Empty', []]),
@@ -327,7 +329,7 @@ def std_strategy(S, payload=None, hashable=None):
                      st.integers(0, 61), st.integers(0, 6), st.integers(1, 366), st.integers(-1, 1)).map(lambda p: ['std', 'struct_time', list(p)])
     r_partial = st.tuples(st.sampled_from(['partial', 'partialmethod']), st.sampled_from(sorted(k for k in FUNCTIONS)),
                           st.lists(payload, max_size=3),
-                          st.lists(st.tuples(ident, payload).map(list), max_size=3, unique_by=lambda p: p[0])).map(
+                          _gens.named_values(st, _idents, payload, 3)).map(
         lambda p: ['std', 'partial', p[0], p[1], p[2], p[3]])
     r_exc = st.tuples(st.sampled_from(sorted(EXCEPTIONS)), st.lists(payload, max_size=3)).map(lambda p: ['std', 'exc', p[0], p[1]])
     seg = st.sampled_from(['a', 'usr', 'local', '..', '.', 'with space', 'é', 'x' * 30, 'file.txt', "it's"])
